@@ -309,7 +309,13 @@ func (c *Ctx) Atom(hint string, t Term) Term {
 	if t.N <= 1 && !strings.HasPrefix(t.S, "(") {
 		return t
 	}
-	return c.ForceName(hint, t)
+	// a declared constant constrained by an equation (a define-fun would be expanded by the
+	// solver and put ite/arithmetic into the pattern)
+	c.ctr++
+	name := fmt.Sprintf("%s!%d", sanitize(hint), c.ctr)
+	c.decls = append(c.decls, decl{name, fmt.Sprintf("(declare-const %s %s)", name, t.Sort)})
+	c.decls = append(c.decls, decl{name + ".def", fmt.Sprintf("(assert (= %s %s))", name, t.S)})
+	return Term{S: name, Sort: t.Sort, N: 1, UB: t.UB, LZ: t.LZ}
 }
 
 func (c *Ctx) ForceName(hint string, t Term) Term {
@@ -542,7 +548,15 @@ func Solve(script string, timeout time.Duration, only ...string) SolveResult {
 			cmd := exec.CommandContext(ctx, a[0], a[1:]...)
 			out, _ := cmd.CombinedOutput()
 			r := SolveResult{Solver: sp.name, Secs: time.Since(t0).Seconds()}
-			first := strings.TrimSpace(strings.SplitN(string(out), "\n", 2)[0])
+			first := ""
+			for _, ln := range strings.Split(string(out), "\n") {
+				ln = strings.TrimSpace(ln)
+				if ln == "" || strings.HasPrefix(ln, "WARNING") {
+					continue
+				}
+				first = ln
+				break
+			}
 			switch first {
 			case "unsat":
 				r.Verdict = "unsat"
